@@ -175,10 +175,12 @@ def runEntry : Nat → Fn → Entry → Dispatch → Nat → Fn × Outcome × Tr
       | .fallthrough =>
         (match next with
          | .noNext => (fn, .noMethod, [], 0)
+         | .ambNext ids => (fn, .ambiguous ids, [], 0)
          | e' => runEntry f fn e' x depth)
       | .ambiguous => (fn, .ambiguous hs, [], 0)
       | .raised => (fn, .raised, [], 0)
     | .noNext => (fn, .noMethod, [], 0)
+    | .ambNext ids => (fn, .ambiguous ids, [], 0)
 
 /-- a call of the function object: lazy build, entry point, lookup, method; the last component counts the
     lookups that had to run `resolve` -/
